@@ -17,14 +17,20 @@ from ..snap import snapshot
 from . import common
 
 EXTRA_OPS = {"twin", "subhypergraph", "probe_frozen"}
-EXPECTED_PROBES = ["twin_of_frozen:copy", "probe_replayed_on_frozen"]
+EXPECTED_PROBES = ["twin_of_frozen:copy", "probe_replayed_on_frozen", "close_on_frozen_complex_that_is_not_closed"]
 
 
 def configure(cfg, r, tier):
     cfg["initial"] = [r.choice(["H", "H", "DH", "SC"]) for _ in range(r.choice([1, 2]))]
     for k in ("H", "DH", "SC"):
         cfg["ops"][k]["freeze"] = r.choice([1.5, 3, 5])
-    cfg["sc_foreign_ops"] = False
+    cfg["sc_foreign_ops"] = r.random() < 0.35
+    if cfg["sc_foreign_ops"]:
+        # inherited Hypergraph mutators can leave a complex that is not downward closed: freeze it
+        # in that state too (close() on it must then be rejected)
+        cfg["sc_invariants"] = False
+        cfg["ops"]["SC"]["random_edge_shuffle"] = 3.0
+        cfg["ops"]["SC"]["close"] = 3.0
     cfg["faults"] = False
     cfg["p_twin"] = 0.08
     cfg["p_sub"] = 0.05
@@ -34,6 +40,11 @@ def configure(cfg, r, tier):
 def next_record(sim):
     g = sim.gen
     w = sim.world
+    if sim.cfg.get("sc_foreign_ops"):
+        # a complex that an inherited mutator has left unclosed: freeze it, then ask it to close()
+        for name, a in w.actors.items():
+            if a.kind == "SC" and not a.model.is_closed() and g.r.random() < 0.4:
+                return g.rec(name, "close" if a.model.frozen else "freeze", {})
     x = g.r.random()
     if x < sim.cfg["p_twin"]:
         return common.gen_twin(sim, ["copy", "copy", "pickle", "ctor"])
